@@ -40,7 +40,7 @@ func NewPool(n int, args ...string) *Pool {
 
 func (p *Pool) spawn() (*worker, error) {
 	cmd := exec.Command(os.Args[0], p.Args...)
-	cmd.Env = append(os.Environ(), "GOMAXPROCS=2", "VERIF_WORKER=1")
+	cmd.Env = append(os.Environ(), "GOMAXPROCS=1", "GOGC=400", "VERIF_WORKER=1")
 	in, err := cmd.StdinPipe()
 	if err != nil {
 		return nil, err
